@@ -380,6 +380,9 @@ class Stack:
                 v.layers[i + 1]["len"] = ln
             elif l["kind"] in INTERP:
                 l["kind"] = "nn" if l["kind"] == "linear" else "linear"
+        # every other partner also stores the other precision: the re-layout copies convert component-wise
+        if (self.salt // 2) % 2 == 0:
+            v.store = "double" if v.store == "float" else "float"
         v.retype()
         return v if v.ok else None
 
